@@ -15,7 +15,7 @@ RULE = ('Inputs: arbitrary Unicode spliced into valid texts and standalone, rand
         'sampled, by a fresh parser object and the module-level convenience function; the outcome must be an AST or '
         'a documented error class, identical across histories, within 2e6 Python calls, with no I/O audit events. '
         'Non-trivial = input of >= 3 tokens; distinct = (entry point, token-kind sequence, outcome class).')
-RULE_ADDED = ' Since the seeding rounds: whitespace-twin groups (incl. unusual escapes), numeric extremes, unit swaps on time bounds, duplicate annotations, human-written corpus at all entry points, per-parse CPU-time budget.'
+RULE_ADDED = ' Since the seeding rounds: whitespace-twin groups (incl. unusual escapes), numeric extremes, unit swaps on time bounds, duplicate annotations, human-written corpus at all entry points, per-parse CPU-time budget, event lists at the edge of their shape (one event in parentheses, empty list, dangling or).'
 ASSUMPTIONS = [
     'ValueError is licensed only when the text applies a name that is not a built-in function',
     'termination is restated as bounded progress: a logical step budget (2e6 Python function calls for <= 60 tokens) '
@@ -140,6 +140,20 @@ def make_inputs(rng, n):
                 tk[j + 2] = gen.pick(rng, ('hz', 'Hz', 'us', 'min', 'sec', 'h', 'S', 's', 'ms'))
                 out.append((level, A.layout(tk), len(tk), 'unit-swap', 'unit-swap'))
                 continue
+        if level in ('specification', 'property') and rng.random() < 0.05:
+            # event lists at the edge of their shape: one simple event inside the parentheses of a disjunction, a
+            # disjunction without them, an empty list, a dangling `or`
+            simple = [se for ev in A.prop_positions(p).values() for se in ([ev] if ev[0] == 'ev' else list(ev[1]))]
+            et = A.event_tokens(gen.pick(rng, simple))
+            tk = list(toks)
+            for j in range(len(tk) - len(et) + 1):
+                if tk[j:j + len(et)] == et:
+                    how = rng.randrange(4)
+                    mid = (['('] + et + [')'], ['(', ')'], ['('] + et + ['or', ')'], ['(', '('] + et + [')', ')'])[how]
+                    tk = tk[:j] + mid + tk[j + len(et):]
+                    break
+            out.append((level, A.layout(tk), len(tk), 'event-list-edge', 'event-list-edge'))
+            continue
         if level in ('specification', 'property') and rng.random() < 0.06:
             # a repeated annotation key, with and without an id before it
             key = gen.pick(rng, ('title', 'description', 'id'))
